@@ -357,14 +357,16 @@ def run_property(mod, tier, sd, replay=None, only=None):
                 jobs.append((mod.__name__, sub.name, per, sd * 1000 + k + 1, tier))
         else:
             jobs.append((mod.__name__, sub.name, n, sd, tier))
+    # NOTE: ProcessPoolExecutor workers are not daemonic, so checks may start worker pools themselves (C17, C18)
+    from concurrent.futures import ProcessPoolExecutor
     if tier == 'thorough' and len(jobs) > 1:
         ctx = multiprocessing.get_context('fork')
-        with ctx.Pool(min(NSHARDS, len(jobs))) as pool:
-            results = pool.map(_shard_job, jobs, chunksize=1)
+        with ProcessPoolExecutor(min(NSHARDS, len(jobs)), mp_context=ctx) as pool:
+            results = list(pool.map(_shard_job, jobs))
     elif tier == 'quick' and len(jobs) > 1 and os.environ.get('VERIF_QUICK_PARALLEL', '1') == '1':
         ctx = multiprocessing.get_context('fork')
-        with ctx.Pool(min(8, len(jobs))) as pool:
-            results = pool.map(_shard_job, jobs, chunksize=1)
+        with ProcessPoolExecutor(min(8, len(jobs)), mp_context=ctx) as pool:
+            results = list(pool.map(_shard_job, jobs))
     else:
         results = [_shard_job(j) for j in jobs]
     for subname, st in results:
